@@ -366,8 +366,11 @@ func (c *dedicatedSingleClient) SetOnInvalidations(fn func([]RedisMessage)) <-ch
 }
 
 func (c *dedicatedSingleClient) Close() {
-	c.wire.Close()
-	c.release()
+	// only the call that wins the mark may touch the wire: after release it belongs to the pool or to the next holder
+	if atomic.CompareAndSwapUint32(&c.mark, 0, 1) {
+		c.wire.Close()
+		c.conn.Store(c.wire)
+	}
 }
 
 func (c *dedicatedSingleClient) check() error {
